@@ -19,6 +19,10 @@ pub mod errors;
 /// Source code formatting
 pub mod formatting;
 
+/// Hooks for the verification harness
+#[cfg(mos_verif)]
+pub mod verif_hooks;
+
 /// Path to the MOS user guide
 pub const GUIDE_URL: &str = "https://mos.datatra.sh/guide";
 
